@@ -43,7 +43,7 @@ STRUCT_RULE = ("struct suite: Go source with 120 (quick) / 1200 (thorough) gener
 PAIR_TB = [
     "hand-written model Impl/{Element,Diff,Emit,Render,ReaderMysql}.lean, tied by correspondence on generated pairs only",
     "regenerated facts: statement templates of sql-templates/*.go (factgen, go/ast) are the ones the model renders with",
-    "regenerated fact (C01, C02, C03, C13): the control skeleton of every function of package element (conditions, branches, loops, early exits, selector calls; factgen skeleton.go) equals the one the diff and print models were written against (Tie.element_skeleton_as_modelled)",
+    "regenerated facts (every property but C17; Props/Tie*.lean): the control skeleton of every function the property's hand-written model was written from (conditions, branches, loops, early exits, selector calls; factgen skeleton.go) equals the recorded one",
     "third-party parsers (pingcap/parser etc.): type canonicalisation, option restore text and visitor order are assumptions validated by the correspondence",
     "postgres reader glue modelled (Impl/ReaderPg.lean); sqlite reader glue modelled for CREATE TABLE / CREATE INDEX without DEFAULT only, the rest answers 'unmodelled' and is judged by the reference engine on the Go output only",
     "reference engine Spec/Exec.lean and grammar Spec/Grammar.lean (MySQL rules, read not proved)",
@@ -54,9 +54,8 @@ PAIR_ASSUME = ["scripts are well-formed on the reference engine", "columns prese
 PROPS = {
     "C16": {
         "level": "proof",
-        "lean_modules": ["SqlizeModel.Props.C16"],
-        "theorems": ["Sqlize.C16.main", "Sqlize.C16.noCollision"],
-        "uses_facts": False,
+        "lean_modules": ["SqlizeModel.Props.C16", "SqlizeModel.Props.TieUtilsStr", "SqlizeModel.Props.TieBuilder"],
+        "theorems": ["Sqlize.C16.main", "Sqlize.C16.noCollision", "Sqlize.Tie.utils_str_skeleton_as_modelled", "Sqlize.Tie.builder_skeleton_as_modelled"],
         "suites": [{"name": "snake"}],
         "rule": "exhaustive strings over {a,s,B,1,_} up to length 6 (quick) / 9 (thorough) + random ASCII identifiers "
                 "of length 1..25 biased to caps runs and final 's', + the builder route (column names AddTable prints for one-field structs with fixed and random exported field names, "
@@ -75,7 +74,7 @@ PROPS = {
 
     "C01": {
         "level": "proof",
-        "lean_modules": ["SqlizeModel.Props.C01", "SqlizeModel.Proofs.ScopeB", "SqlizeModel.Props.TieElement"],
+        "lean_modules": ["SqlizeModel.Props.C01", "SqlizeModel.Proofs.ScopeB", "SqlizeModel.Props.TieElement", "SqlizeModel.Props.TieApiLoad"],
         "theorems": ["Sqlize.C01.columns", "Sqlize.Abs.columns_up", "Sqlize.Abs.Merge.merge_correct", "Sqlize.Abs.emitUp_correct", "Sqlize.C01.printed_columns", "Sqlize.walkCols_up_refines", "Sqlize.C01.diffed_columns", "Sqlize.Table.diffCols2_names", "Sqlize.Table.diff_cols_tagged", "Sqlize.C01.columns_from_scripts", "Sqlize.columns_end_to_end",
                      "Sqlize.C01.indexes_and_keys_from_scripts", "Sqlize.elems_end_to_end", "Sqlize.Abs.Idx.emit_correct", "Sqlize.Abs.Idx.emitKeep_correct",
                      "Sqlize.Table.walkIdx_refines", "Sqlize.Table.walkFk_refines", "Sqlize.Table.diff_elems",
@@ -87,7 +86,7 @@ PROPS = {
                      "Sqlize.C01.columns_on_reference_engine", "Sqlize.columns_spec_up", "Sqlize.colExecAll_of_abs", "Sqlize.colExecAll_set", "Sqlize.execAll_of_colExecAll", "Sqlize.added_column_def", "Sqlize.Table.walkCols_stmtCols",
                      "Sqlize.C01.changed_column_modified", "Sqlize.perm_of_not_changed", "Sqlize.ckey_inj", "Sqlize.Table.diff_like", "Sqlize.Table.walkCols_modify",
                      "Sqlize.C01.equal_primary_key_untouched", "Sqlize.C01.tables_from_scripts", "Sqlize.Migration.migrate_tbl",
-                     "Sqlize.Migration.diffTables2_appends", "Sqlize.proved_up", "Sqlize.Tie.element_skeleton_as_modelled"],
+                     "Sqlize.Migration.diffTables2_appends", "Sqlize.proved_up", "Sqlize.Tie.element_skeleton_as_modelled", "Sqlize.Tie.api_load_skeleton_as_modelled"],
         "suites": [{"name": "pair"}],
         "corr_points": ["load-old", "load-new", "state-old", "state-new", "Diff", "state-diff", "StringUp"],
         "rule": PAIR_RULE,
@@ -116,7 +115,7 @@ PROPS = {
     },
     "C02": {
         "level": "proof",
-        "lean_modules": ["SqlizeModel.Props.C02", "SqlizeModel.Proofs.ScopeB", "SqlizeModel.Props.TieElement"],
+        "lean_modules": ["SqlizeModel.Props.C02", "SqlizeModel.Proofs.ScopeB", "SqlizeModel.Props.TieElement", "SqlizeModel.Props.TieApiLoad"],
         "theorems": ["Sqlize.C02.columns", "Sqlize.C02.up_down_identity", "Sqlize.Abs.emitDown_correct", "Sqlize.C02.printed_columns", "Sqlize.walkCols_down_refines", "Sqlize.C02.diffed_columns", "Sqlize.C02.columns_from_scripts",
                      "Sqlize.C02.indexes_and_keys_from_scripts", "Sqlize.Abs.Idx.emitDown_correct", "Sqlize.Abs.Idx.emitDownKeep_correct",
                      "Sqlize.Table.walkIdx_refines_down", "Sqlize.Table.walkFk_refines_down",
@@ -125,7 +124,7 @@ PROPS = {
                      "Sqlize.C02.columns_on_reference_engine", "Sqlize.columns_spec_down", "Sqlize.removed_column_def", "Sqlize.Table.diffCols2_mem_full",
                      "Sqlize.C02.indexes_with_dropped_columns", "Sqlize.Abs.Idx.emitDownSup_correct", "Sqlize.Table.walkIdx_refines_down_sup",
                      "Sqlize.equal_pk_untouched_down", "Sqlize.table_spec_down_any", "Sqlize.table_stmts_justified_down", "Sqlize.loaded_table_spec",
-                     "Sqlize.schema_spec_down", "Sqlize.C02.schema_on_reference_engine", "Sqlize.C02.up_then_down_on_reference_engine", "Sqlize.proved_down", "Sqlize.Tie.element_skeleton_as_modelled"],
+                     "Sqlize.schema_spec_down", "Sqlize.C02.schema_on_reference_engine", "Sqlize.C02.up_then_down_on_reference_engine", "Sqlize.proved_down", "Sqlize.Tie.element_skeleton_as_modelled", "Sqlize.Tie.api_load_skeleton_as_modelled"],
         "suites": [{"name": "pair"}],
         "corr_points": ["load-old", "load-new", "state-old", "state-new", "Diff", "state-diff", "StringUp", "StringDown"],
         "rule": PAIR_RULE,
@@ -145,10 +144,10 @@ PROPS = {
     },
     "C03": {
         "level": "proof",
-        "lean_modules": ["SqlizeModel.Props.C03", "SqlizeModel.Proofs.ScopeB", "SqlizeModel.Props.TieElement"],
+        "lean_modules": ["SqlizeModel.Props.C03", "SqlizeModel.Proofs.ScopeB", "SqlizeModel.Props.TieElement", "SqlizeModel.Props.TieApiLoad"],
         "theorems": ["Sqlize.C03.unchanged_prints_nothing", "Sqlize.C03.same_options_unchanged", "Sqlize.migrate_quiet",
                      "Sqlize.C03.equal_content_empty", "Sqlize.C03.self_diff_empty", "Sqlize.C03.same_script_empty", "Sqlize.C03.equal_schemas_from_scripts",
-                     "Sqlize.hasChangedOptions_of_perm", "Sqlize.ReaderMysql.step_plain", "Sqlize.table_same", "Sqlize.Table.diff_same", "Sqlize.Migration.diff_same", "Sqlize.C03.schema_on_reference_engine", "Sqlize.C03.equal_table_never_justified", "Sqlize.schema_c03", "Sqlize.dbEquiv_of_equiv", "Sqlize.proved_both", "Sqlize.Tie.element_skeleton_as_modelled"],
+                     "Sqlize.hasChangedOptions_of_perm", "Sqlize.ReaderMysql.step_plain", "Sqlize.table_same", "Sqlize.Table.diff_same", "Sqlize.Migration.diff_same", "Sqlize.C03.schema_on_reference_engine", "Sqlize.C03.equal_table_never_justified", "Sqlize.schema_c03", "Sqlize.dbEquiv_of_equiv", "Sqlize.proved_both", "Sqlize.Tie.element_skeleton_as_modelled", "Sqlize.Tie.api_load_skeleton_as_modelled"],
         "suites": [{"name": "pair"}, {"name": "struct", "kind": "struct"}],
         "corr_points": ["load-old", "load-new", "state-old", "state-new", "Diff", "state-diff", "StringUp", "StringDown", "StringUp-2nd"],
         "rule": PAIR_RULE,
@@ -168,8 +167,8 @@ PROPS = {
     },
     "C13": {
         "level": "proof",
-        "lean_modules": ["SqlizeModel.Props.C13", "SqlizeModel.Props.TieElement"],
-        "theorems": ["Sqlize.C13.default_order", "Sqlize.C13.ignore_same_statements", "Sqlize.C13.ignore_no_position", "Sqlize.C13.ignore_appends", "Sqlize.C13.printed_ignore", "Sqlize.walkCols_up_ignore_refines", "Sqlize.C13.columns_from_scripts", "Sqlize.columns_end_to_end_ignore", "Sqlize.Tie.element_skeleton_as_modelled"],
+        "lean_modules": ["SqlizeModel.Props.C13", "SqlizeModel.Props.TieElement", "SqlizeModel.Props.TieApiLoad"],
+        "theorems": ["Sqlize.C13.default_order", "Sqlize.C13.ignore_same_statements", "Sqlize.C13.ignore_no_position", "Sqlize.C13.ignore_appends", "Sqlize.C13.printed_ignore", "Sqlize.walkCols_up_ignore_refines", "Sqlize.C13.columns_from_scripts", "Sqlize.columns_end_to_end_ignore", "Sqlize.Tie.element_skeleton_as_modelled", "Sqlize.Tie.api_load_skeleton_as_modelled"],
         "suites": [{"name": "pair"}, {"name": "history"}],
         "corr_points": ["load-old", "load-new", "state-old", "state-new", "Diff", "state-diff", "StringUp", "StringDown"],
         "rule": PAIR_RULE,
@@ -181,12 +180,12 @@ PROPS = {
 
     "C05": {
         "level": "proof",
-        "lean_modules": ["SqlizeModel.Props.C05"],
+        "lean_modules": ["SqlizeModel.Props.C05", "SqlizeModel.Props.TieParser", "SqlizeModel.Props.TieElement", "SqlizeModel.Props.TieApiLoad"],
         "theorems": ["Sqlize.C05.split_invariant", "Sqlize.C05.calls_invariant", "Sqlize.C05.rejected_unchanged", "Sqlize.C05.parse_before_edit",
                      "Sqlize.C05.load_keeps_inv", "Sqlize.C05.rename_onto_existing_breaks", "Sqlize.readScript_inv", "Sqlize.fromString_inv", "Sqlize.C05.names_and_positions", "Sqlize.C05.names_positions_types", "Sqlize.C05.names_positions_types_options", "Sqlize.ReaderMysql.step_rel", "Sqlize.ReaderMysql.fidelity",
                      "Sqlize.C05.indexes_and_foreign_keys", "Sqlize.ReaderMysql.step_elems", "Sqlize.Table.removeColumn_raw",
                      "Sqlize.C05.primary_key_table_level", "Sqlize.ReaderMysql.step_pk", "Sqlize.pkOf_strip",
-                     "Sqlize.C05.reader_dispatch_as_modelled", "Sqlize.C05.postgres_fragment", "Sqlize.ReaderPg.step_rel", "Sqlize.ReaderPg.exec_bare", "Sqlize.Table.addColumn_merge_pg"],
+                     "Sqlize.C05.reader_dispatch_as_modelled", "Sqlize.C05.postgres_fragment", "Sqlize.ReaderPg.step_rel", "Sqlize.ReaderPg.exec_bare", "Sqlize.Table.addColumn_merge_pg", "Sqlize.Tie.parser_skeleton_as_modelled", "Sqlize.Tie.element_skeleton_as_modelled", "Sqlize.Tie.api_load_skeleton_as_modelled"],
         "suites": [{"name": "script"}],
         "corr_points": ["load", "state", "dump"],
         "rule": SCRIPT_RULE,
@@ -208,10 +207,10 @@ PROPS = {
     },
     "C09": {
         "level": "proof",
-        "lean_modules": ["SqlizeModel.Props.C09"],
+        "lean_modules": ["SqlizeModel.Props.C09", "SqlizeModel.Props.TieParser", "SqlizeModel.Props.TieElement", "SqlizeModel.Props.TieApiLoad"],
         "theorems": ["Sqlize.C09.column_up_total", "Sqlize.C09.column_down_total", "Sqlize.C09.index_up_total",
                      "Sqlize.C09.load_never_panics", "Sqlize.C09.primitives_total", "Sqlize.readScript_noPanic",
-                     "Sqlize.C09.diff_and_print_never_panic", "Sqlize.C09.load_and_print_never_panic", "Sqlize.Table.diff_total", "Sqlize.Migration.migrate_total"],
+                     "Sqlize.C09.diff_and_print_never_panic", "Sqlize.C09.load_and_print_never_panic", "Sqlize.Table.diff_total", "Sqlize.Migration.migrate_total", "Sqlize.Tie.parser_skeleton_as_modelled", "Sqlize.Tie.element_skeleton_as_modelled", "Sqlize.Tie.api_load_skeleton_as_modelled"],
         "suites": [{"name": "script"}, {"name": "pair"}],
         "corr_points": ["load", "state", "dump", "dump-down", "load-old", "load-new", "Diff", "StringUp", "StringDown"],
         "rule": SCRIPT_RULE + " | " + PAIR_RULE + " | C09: any panic recovered from a sqlize frame (load, state, dump up/down, hash, split loads, "
@@ -229,8 +228,8 @@ PROPS = {
 
     "C07": {
         "level": "proof",
-        "lean_modules": ["SqlizeModel.Props.C07"],
-        "theorems": ["Sqlize.C07.empty_is_zero", "Sqlize.C07.column_order_irrelevant", "Sqlize.C07.same_tables_same_value", "Sqlize.C07.case_option_irrelevant", "Sqlize.sortStrs_perm", "Sqlize.C07.value_is_a_function_of_the_schema", "Sqlize.C07.same_schema_same_value_from_scripts", "Sqlize.hash_of_schema", "Sqlize.Table.hashWith_spec", "Sqlize.Index.hashInput_live"],
+        "lean_modules": ["SqlizeModel.Props.C07", "SqlizeModel.Props.TieElement", "SqlizeModel.Props.TieApiHash"],
+        "theorems": ["Sqlize.C07.empty_is_zero", "Sqlize.C07.column_order_irrelevant", "Sqlize.C07.same_tables_same_value", "Sqlize.C07.case_option_irrelevant", "Sqlize.sortStrs_perm", "Sqlize.C07.value_is_a_function_of_the_schema", "Sqlize.C07.same_schema_same_value_from_scripts", "Sqlize.hash_of_schema", "Sqlize.Table.hashWith_spec", "Sqlize.Index.hashInput_live", "Sqlize.Tie.element_skeleton_as_modelled", "Sqlize.Tie.api_hash_skeleton_as_modelled"],
         "suites": [{"name": "hash", "repeat_processes": 1, "repeat_processes_thorough": 5}, {"name": "script"}],
         "corr_points": None,
         "rule": "hash suite: random schemas (1..4 tables with indexes) x presentations {canonical, one statement per call, alias spelling + keyword "
@@ -250,9 +249,9 @@ PROPS = {
 
     "C08": {
         "level": "proof",
-        "lean_modules": ["SqlizeModel.Props.C08"],
+        "lean_modules": ["SqlizeModel.Props.C08", "SqlizeModel.Props.TieElement", "SqlizeModel.Props.TieApiLoad", "SqlizeModel.Props.TieApiHash", "SqlizeModel.Props.TieApiExport", "SqlizeModel.Props.TieApiVersion"],
         "theorems": ["Sqlize.C08.calls_pure", "Sqlize.C08.pure_of_inv", "Sqlize.C08.arrange_identity", "Sqlize.C08.up_pure", "Sqlize.C08.down_pure", "Sqlize.migrate_state_of_stable", "Sqlize.sortByVal_canon",
-                     "Sqlize.C08.loaded_pure", "Sqlize.C08.diffed_pure", "Sqlize.C08.diffed_pure_simple", "Sqlize.loadAndDiff_inv'", "Sqlize.Migration.diff_inv", "Sqlize.readScript_noPending"],
+                     "Sqlize.C08.loaded_pure", "Sqlize.C08.diffed_pure", "Sqlize.C08.diffed_pure_simple", "Sqlize.loadAndDiff_inv'", "Sqlize.Migration.diff_inv", "Sqlize.readScript_noPending", "Sqlize.Tie.element_skeleton_as_modelled", "Sqlize.Tie.api_load_skeleton_as_modelled", "Sqlize.Tie.api_hash_skeleton_as_modelled", "Sqlize.Tie.api_export_skeleton_as_modelled", "Sqlize.Tie.api_version_skeleton_as_modelled"],
         "suites": [{"name": "calls", "repeat_processes": 1, "repeat_processes_thorough": 5}, {"name": "pair", "repeat_processes": 1, "repeat_processes_thorough": 3}, {"name": "script"}],
         "corr_points": ["StringUp", "StringDown", "StringUp-2nd", "state-diff", "state-after-outputs", "dump", "dump-down"],
         "rule": "calls suite: states from the pair space (loaded or diffed, 3 dialects x case x field-order option); all ordered pairs (quick) / "
@@ -271,8 +270,8 @@ PROPS = {
 
     "C12": {
         "level": "proof",
-        "lean_modules": ["SqlizeModel.Props.C12"],
-        "theorems": ["Sqlize.C12.up_zero", "Sqlize.C12.up_nonzero", "Sqlize.C12.down_zero", "Sqlize.C12.down_nonzero", "Sqlize.C12.with_version", "Sqlize.C12.call_shape", "Sqlize.C12.default_table_skipped"],
+        "lean_modules": ["SqlizeModel.Props.C12", "SqlizeModel.Props.TieApiVersion", "SqlizeModel.Props.TieTemplates"],
+        "theorems": ["Sqlize.C12.up_zero", "Sqlize.C12.up_nonzero", "Sqlize.C12.down_zero", "Sqlize.C12.down_nonzero", "Sqlize.C12.with_version", "Sqlize.C12.call_shape", "Sqlize.C12.default_table_skipped", "Sqlize.Tie.api_version_skeleton_as_modelled", "Sqlize.Tie.templates_skeleton_as_modelled"],
         "suites": [{"name": "version"}],
         "corr_points": None,
         "rule": "grid: 3 dialects x 2 keyword cases x 10 table names (default, custom, blanks, quotes, '%s', non-ASCII, empty) x 7 versions (0, +-1, 42, a "
@@ -290,8 +289,8 @@ PROPS = {
 
     "C11": {
         "level": "proof",
-        "lean_modules": ["SqlizeModel.Props.C11"],
-        "theorems": ["Sqlize.C11.sanitize_charset", "Sqlize.C11.nothing_when_empty", "Sqlize.C11.files_written", "Sqlize.C11.read_filter", "Sqlize.C11.read_sorted", "Sqlize.C11.sort_perm"],
+        "lean_modules": ["SqlizeModel.Props.C11", "SqlizeModel.Props.TieUtilsFile", "SqlizeModel.Props.TieApiFiles"],
+        "theorems": ["Sqlize.C11.sanitize_charset", "Sqlize.C11.nothing_when_empty", "Sqlize.C11.files_written", "Sqlize.C11.read_filter", "Sqlize.C11.read_sorted", "Sqlize.C11.sort_perm", "Sqlize.Tie.utils_file_skeleton_as_modelled", "Sqlize.Tie.api_files_skeleton_as_modelled"],
         "suites": [{"name": "files"}],
         "corr_points": None,
         "rule": "scratch directories under /verif/.work (removed afterwards): 17 migration names (blanks, dashes, tabs/newlines, path separators, dots, "
@@ -310,8 +309,8 @@ PROPS = {
 
     "C14": {
         "level": "proof",
-        "lean_modules": ["SqlizeModel.Props.C14"],
-        "theorems": ["Sqlize.C14.select_all", "Sqlize.C14.select_named", "Sqlize.C14.line_per_column", "Sqlize.C14.block_per_table", "Sqlize.C14.relation_once", "Sqlize.C14.relation_exists", "Sqlize.C14.live_is_url"],
+        "lean_modules": ["SqlizeModel.Props.C14", "SqlizeModel.Props.TieMermaid", "SqlizeModel.Props.TieApiExport"],
+        "theorems": ["Sqlize.C14.select_all", "Sqlize.C14.select_named", "Sqlize.C14.line_per_column", "Sqlize.C14.block_per_table", "Sqlize.C14.relation_once", "Sqlize.C14.relation_exists", "Sqlize.C14.live_is_url", "Sqlize.Tie.mermaid_skeleton_as_modelled", "Sqlize.Tie.api_export_skeleton_as_modelled"],
         "suites": [{"name": "export"}],
         "corr_points": ["MermaidJsErd", "MermaidJsLive"],
         "rule": EXPORT_RULE,
@@ -322,8 +321,8 @@ PROPS = {
     },
     "C15": {
         "level": "proof",
-        "lean_modules": ["SqlizeModel.Props.C15"],
-        "theorems": ["Sqlize.C15.other_dialects_nothing", "Sqlize.C15.one_document_per_table", "Sqlize.C15.one_field_per_column", "Sqlize.C15.nullable_iff_default"],
+        "lean_modules": ["SqlizeModel.Props.C15", "SqlizeModel.Props.TieAvro", "SqlizeModel.Props.TieApiExport"],
+        "theorems": ["Sqlize.C15.other_dialects_nothing", "Sqlize.C15.one_document_per_table", "Sqlize.C15.one_field_per_column", "Sqlize.C15.nullable_iff_default", "Sqlize.Tie.avro_skeleton_as_modelled", "Sqlize.Tie.api_export_skeleton_as_modelled"],
         "suites": [{"name": "export"}],
         "corr_points": ["ArvoSchema"],
         "rule": EXPORT_RULE,
@@ -356,10 +355,10 @@ PROPS = {
 
     "C04": {
         "level": "proof",
-        "lean_modules": ["SqlizeModel.Props.C04"],
+        "lean_modules": ["SqlizeModel.Props.C04", "SqlizeModel.Props.TieElement", "SqlizeModel.Props.TieApiLoad", "SqlizeModel.Props.TieApiFiles"],
         "theorems": ["Sqlize.C04.converges", "Sqlize.C04.next_diff_empty", "Sqlize.C04.down_returns", "Sqlize.C04.history_schema",
                      "Sqlize.C04.model_converges", "Sqlize.C04.model_next_diff_empty", "Sqlize.rounds", "Sqlize.schema_up_vocab", "Sqlize.UpScope.of_equiv",
-                     "Sqlize.execAll_textual", "Sqlize.Migration.diff_plain", "Sqlize.Migration.migrate_mem"],
+                     "Sqlize.execAll_textual", "Sqlize.Migration.diff_plain", "Sqlize.Migration.migrate_mem", "Sqlize.Tie.element_skeleton_as_modelled", "Sqlize.Tie.api_load_skeleton_as_modelled", "Sqlize.Tie.api_files_skeleton_as_modelled"],
         "suites": [{"name": "history", "timeout": 3600}],
         "corr_points": None,
         "rule": "history suite: revision sequences M1..Mk (k = 2..8 quick, ..40 thorough) of random schemas and C01 change sets (drop table, drop "
@@ -381,9 +380,9 @@ PROPS = {
 
     "C06": {
         "level": "proof",
-        "lean_modules": ["SqlizeModel.Props.C06"],
+        "lean_modules": ["SqlizeModel.Props.C06", "SqlizeModel.Props.TieBuilder"],
         "theorems": ["Sqlize.C06.table_name", "Sqlize.C06.ignored_field", "Sqlize.C06.embedded_last", "Sqlize.C06.pk_first", "Sqlize.C06.column_name", "Sqlize.C06.default_name", "Sqlize.C06.primary_key_iff", "Sqlize.C06.not_null_iff", "Sqlize.C06.null_iff",
-                     "Sqlize.C06.auto_increment_iff", "Sqlize.C06.foreign_key_only_from_its_items", "Sqlize.Builder.tagItem_name_eq"],
+                     "Sqlize.C06.auto_increment_iff", "Sqlize.C06.foreign_key_only_from_its_items", "Sqlize.Builder.tagItem_name_eq", "Sqlize.Tie.builder_skeleton_as_modelled"],
         "suites": [{"name": "struct", "kind": "struct"}],
         "corr_points": ["AddTable", "FromObjects-dump", "FromObjects-hash"],
         "rule": STRUCT_RULE,
@@ -399,8 +398,8 @@ PROPS = {
     },
     "C10": {
         "level": "proof",
-        "lean_modules": ["SqlizeModel.Props.C10"],
-        "theorems": ["Sqlize.C10.keyword_spellings", "Sqlize.C10.keywords_fixed", "Sqlize.C10.apply_only_case", "Sqlize.C10.hash_case_free"],
+        "lean_modules": ["SqlizeModel.Props.C10", "SqlizeModel.Props.TieBuilder", "SqlizeModel.Props.TieTemplates"],
+        "theorems": ["Sqlize.C10.keyword_spellings", "Sqlize.C10.keywords_fixed", "Sqlize.C10.apply_only_case", "Sqlize.C10.hash_case_free", "Sqlize.Tie.builder_skeleton_as_modelled", "Sqlize.Tie.templates_skeleton_as_modelled"],
         "suites": [{"name": "struct", "kind": "struct"}, {"name": "hash"}, {"name": "pair"}],
         "corr_points": ["AddTable", "AddTable-other-case", "StringUp-other-case", "StringDown-other-case"],
         "rule": STRUCT_RULE + " | C10: per tag keyword a random camelCase / snake_case spelling and a shuffled item order, the expected schema does not "
